@@ -38,6 +38,7 @@
 -/
 import Cerberus.Proofs.Validate
 import Cerberus.Proofs.Prefix
+import Cerberus.Extracted
 namespace Cerberus
 open V
 
@@ -213,5 +214,36 @@ theorem C10_detached_keeps (ctx : Ctx) (doc : Val) (ov : Overrides) (f : Key) (s
     (detach ctx doc ov f sc).root = (ctx.child doc ov (some f) sc).root ∧
     (detach ctx doc ov f sc).isChild = true ∧ (detach ctx doc ov f sc).docPath = [] := by
   simp [detach, Ctx.child]
+
+/-! ### non-vacuity: an instance with errors at two levels, evaluated by the kernel -/
+
+def C10_exEnv : Env :=
+  { rx := fun _ _ => none, coerce := Family.coerce, hasCoercer := fun _ => false, setter := fun _ _ => .other "x",
+    hasSetter := fun _ => false, checker := fun _ _ => none, rulesSets := fun _ => none, schemas := fun _ => none }
+def C10_exSchema : Val := .dict [(.s "a", .dict [(.s "type", .str "integer")]),
+  (.s "l", .dict [(.s "type", .str "list"), (.s "schema", .dict [(.s "type", .str "string")])])]
+def C10_exDoc : Val := .dict [(.s "a", .str "x"), (.s "l", .seq false [.int 1, .str "ok"])]
+def C10_exCtx : Ctx := { cfg := {}, docPath := [], schemaPath := [.s "f", .s "schema"], isChild := true }
+
+/-- the paths of the reported errors and of their child errors: document paths, schema paths,
+    document paths of the children, schema paths of the children -/
+def C10_paths_of (r : M (List Err)) : List (List (List Key)) :=
+  match r with
+  | .ok es => [es.map (·.dp), es.map (·.sp), es.flatMap (fun e => e.kids.map (·.dp)), es.flatMap (fun e => e.kids.map (·.sp))]
+  | .error _ => []
+
+def C10_exCheck : Bool :=
+  decide (C10_paths_of (validate0 C10_exEnv Extracted.tables 5 C10_exCtx C10_exSchema C10_exDoc false) =
+    [[[.s "a"], [.s "l"]],
+     [[.s "f", .s "schema", .s "a", .s "type"], [.s "f", .s "schema", .s "l", .s "schema"]],
+     [[.s "l", .i 0]],
+     [[.s "f", .s "schema", .s "l", .s "schema", .s "type"]]]) &&
+  decide (C10_paths_of (validate0 C10_exEnv Extracted.tables 5 (pp [.s "p", .i 3] [.s "q"] C10_exCtx) C10_exSchema C10_exDoc false) =
+    [[[.s "p", .i 3, .s "a"], [.s "p", .i 3, .s "l"]],
+     [[.s "q", .s "f", .s "schema", .s "a", .s "type"], [.s "q", .s "f", .s "schema", .s "l", .s "schema"]],
+     [[.s "p", .i 3, .s "l", .i 0]],
+     [[.s "q", .s "f", .s "schema", .s "l", .s "schema", .s "type"]]])
+
+example : C10_exCheck = true := by decide +kernel
 
 end Cerberus
